@@ -17,7 +17,9 @@ from props.c13 import ATTRS, kws16
 TRACT_TEXTS = ['NE/4', 'Lots 1 - 3, S/2N/2', 'Lot 1, Lot 1', 'N/2, N/2', 'Lot 1(40), Lot 1(38)', 'Lots 5 - 3 and NE/4NE/4', 'NE, SW of Lot 2',
                'That part of the N2 lying north of the river', 'Lots 1, 2, 2 and E/2E/2, E/2', '', 'NE', 'NE; SW', 'SE and NW']
 PLSS_TEXTS = ['T154N-R97W Sec 14: NE/4, Sec 15: Lots 1 - 3, Lot 1', 'T154-R97 Sec 14: NE/4', 'Township 154 North, Range 97 West Sec 1: N/2, N/2; Sec 2: Lot 1(40), Lot 1(38)',
-              'NE/4 of Section 14, T154N-R97W less and except the wellbore', 'T154N-R97W Sec 14 NE/4, Sec 15 W/2', 'no plss here', 'T1S-R2E Sections 5 - 3: Lots 4 - 2', 'T154N-R97W Sec 14: NE, Sec 15: SW']
+              'NE/4 of Section 14, T154N-R97W less and except the wellbore', 'T154N-R97W Sec 14 NE/4, Sec 15 W/2', 'no plss here', 'T1S-R2E Sections 5 - 3: Lots 4 - 2', 'T154N-R97W Sec 14: NE, Sec 15: SW',
+              # OCR artefacts: read only under ocr_scrub -- a non-committing parse(ocr_scrub=True) must not make later parses read them
+              'TlS4N-R97W Sec 14: NE/4', 'T1S4N-R9OW Sec I4: NE/4, Sec 15: W/2']
 T_KWS = [{}, {'clean_qq': True}, {'qq_depth': 1}, {'qq_depth_min': 1, 'qq_depth_max': 3}, {'break_halves': True}, {'suppress_lot_divs': True}, {'clean_qq': False, 'qq_depth_min': 3}]
 P_KWS = [{}, {'parse_qq': True}, {'segment': True}, {'sec_colon_required': True}, {'sec_colon_cautious': True}, {'default_ns': 's', 'default_ew': 'e'},
          {'layout': 'copy_all'}, {'clean_qq': True, 'parse_qq': True}, {'sec_within': True}, {'ocr_scrub': True}]
@@ -190,6 +192,14 @@ def run(tier, mode):
             cases.append((H.req('tract_history', desc, '154n97w14', cfg, pq, [wire_tract_op(o) for o in ops]), H.canon(wire_tract(t2)),
                           {'class': 'Tract', 'desc': desc, 'config': cfg, 'parse_qq': pq, 'ops': ops}))
     # ------------------------------------------------ PLSSDesc
+    # reference results of the fixed texts, taken before any history has run in this process: the same parse, repeated after all the histories
+    # below (overrides of every kind, committed or not), must reproduce them exactly
+    proj0 = lambda x: (x.pp_desc, x.current_layout, x.w_flags, x.e_flags, [(t.trs, t.desc, t.lots, t.qqs, t.w_flags, t.e_flags) for t in x.tracts])
+    reference = {}
+    for text in PLSS_TEXTS:
+        d0 = H.call(lambda: pytrs.PLSSDesc(text, parse_qq=True))
+        if not isinstance(d0, H.Exn):
+            reference[text] = (d0, proj0(d0))
     m = 60 if tier == 'quick' else 1000
     for i in range(m):
         text = r.choice(PLSS_TEXTS) if i % 3 else P.render(r, P.gen_desc(r, max_groups=2, max_secs=2, blocks=['NE/4', 'Lots 1 - 3, Lot 1', 'N/2, N/2', 'Lot 1(40), Lot 1(38)']), r.choice(P.LAYOUTS))
@@ -270,6 +280,13 @@ def run(tier, mode):
     n_or += 1
     if t.w_flags != f1:
         fail('reparse_not_idempotent', {'class': 'Tract', 'desc': 'Lot 1, Lot 1', 'ops': ['parse']}, t.w_flags, f1, 'C14-tract-reparse-doubles')
+    for text, (d0, p0) in reference.items():
+        n_or += 2
+        again = H.call(d0.parse)                                  # the object created first, re-parsed with unchanged settings
+        fresh = H.call(lambda: pytrs.PLSSDesc(text, parse_qq=True))
+        for how, obj in (('re-parse of the first object', d0 if not isinstance(again, H.Exn) else again), ('new object', fresh)):
+            if isinstance(obj, H.Exn) or proj0(obj) != p0:
+                fail('reparse_after_other_histories_differs', {'class': 'PLSSDesc', 'text': text, 'config': '', 'how': how}, obj if isinstance(obj, H.Exn) else proj0(obj), p0)
     parts = {}
     if cases:
         parts['model_vs_code'] = H.diff_cases(cases, nontrivial=lambda e: len(e) > 200)
